@@ -715,6 +715,14 @@ void bn_rec_reg(int8_t *naf, size_t *len, const bn_t k, size_t n, size_t w) {
 		return;
 	}
 
+	if (k->used > d) {
+		/* The scalar does not fit the n bits it is recoded in. */
+		*len = 0;
+		RLC_FREE(t);
+		RLC_THROW(ERR_NO_VALID);
+		return;
+	}
+
 	memset(naf, 0, *len);
 	dv_zero(t, d);
 	dv_copy(t, k->dp, k->used);
@@ -826,6 +834,12 @@ void bn_rec_glv(bn_t k0, bn_t k1, const bn_t k, const bn_t n, const bn_st *v1,
 	dig_t _k[2 * RLC_FP_DIGS + 1] = { 0 }, _v[2 * RLC_FP_DIGS] = { 0 };
 
 	/* Constant-time, except for the first scalar copy. */
+
+	if (k->used > 2 * RLC_FP_DIGS + 1) {
+		/* The scalar must have been reduced modulo the group order. */
+		RLC_THROW(ERR_NO_VALID);
+		return;
+	}
 
 	/* b1 = (k * v10) >> (bits + 1). */
 	dv_copy(_k, k->dp, k->used);
